@@ -44,6 +44,9 @@ func idxValuePool(r *rng.R) []interface{} {
 	pool := safePool()
 	// thin it, but keep nil and a few numbers
 	out := []interface{}{nil, i64(1), f64(1), i64(2)}
+	if r.Chance(0.3) {
+		out = append(out, longStr("a"), longStr("b"), longStr("bb"), medStr("x"), medStr("y"))
+	}
 	n := r.Range(5, 14)
 	for i := 0; i < n; i++ {
 		out = append(out, val.Clone(pool[r.Intn(len(pool))]))
